@@ -1443,6 +1443,43 @@ def lean_parse_canon(out):
     return graph_canon(g)
 
 
+FUZZ_IDS = ["a", "b1", "_x", "node1", "N", "cluster_01", "01", "12", "3.5", ".5", "1.", "1.2.3", "1a", "a.b", "-1", "x-y",
+            "graph1", "Node", "SUBGRAPH", "strict", "Digraph", "edge", '"q s"', '""', '"a\\"b"', '"{"', "a_b", "A1"]
+
+
+def dot_fuzz_doc(rng):
+    """a random document in a language a little wider than DOT's subset (odd ids, keywords in odd places, stray tokens)"""
+    ident = lambda: rng.choice(FUZZ_IDS)
+
+    def attrs():
+        n = rng.randint(0, 3)
+        parts = []
+        for i in range(n):
+            parts.append("%s=%s" % (ident(), ident()))
+            if i < n - 1 or rng.random() < 0.3:
+                parts.append(rng.choice([",", ";", " ", ""]))
+        return "[" + " ".join(parts) + "]"
+
+    def stmt(d):
+        r = rng.random()
+        if r < 0.3:
+            return "%s %s" % (ident(), attrs() if rng.random() < 0.6 else "")
+        if r < 0.55:
+            return "%s -> %s %s" % (ident(), ident(), attrs() if rng.random() < 0.5 else "")
+        if r < 0.65:
+            return "%s = %s" % (ident(), ident())
+        if r < 0.8:
+            return "%s %s" % (rng.choice(["graph", "node", "edge", "GRAPH", "Node"]), attrs())
+        if d < 3:
+            return "%s { %s }" % (rng.choice(["subgraph " + ident(), "subgraph", ""]), body(d + 1))
+        return ident()
+
+    def body(d):
+        return " ".join(stmt(d) + rng.choice([";", "", " ;", "\n"]) for _ in range(rng.randint(0, 4)))
+    tail = rng.choice(["", "\n", " }", " x"]) if rng.random() < 0.1 else ""
+    return "%sdigraph %s{ %s }%s" % (rng.choice(["", "strict ", "STRICT "]), rng.choice([ident() + " ", ""]), body(0), tail)
+
+
 def has_empty_linked(spec):
     """an empty nested scheduler reachable by the descent from a scheduler that has or is a requirement"""
     sched = set(spec["sched"])
@@ -1632,6 +1669,19 @@ def run_C20(tier, seed, res, drv, replay=None):
         if back != s:
             res.violations.append(("protect(%r) does not read back as the same string in DOT" % s, dict(kind="quote", s=s)))
     batch.flush()
+    # the model's DOT lexer + parser (what `render_parses` is about) must not be more permissive than graphviz: every
+    # random document they accept, `dot` accepts (documents are drawn from a grammar a little wider than DOT's)
+    if HAVE_DOT:
+        docs = [dot_fuzz_doc(rng) for _ in range(250 if tier == "quick" else 4000)]
+        outs = drv.ask(["parse text=%s" % d.encode().hex() for d in docs])
+        accepted = [d for d, o in zip(docs, outs) if o.startswith("ok")]
+        res.dist["dotgrammar"] = {"documents": len(docs), "accepted_by_model": len(accepted)}
+        for d in accepted:
+            res.count("dotgrammar")
+            p = subprocess.run([HAVE_DOT, "-Tcanon"], input=d, capture_output=True, text=True)
+            if p.returncode != 0 or "syntax error" in p.stderr or "syntax ambiguity" in p.stderr:
+                res.mismatches.append(("dotgrammar", dict(kind="dotdoc", text=d), "accepted by the model's lexer and parser",
+                                       "rejected by graphviz: " + p.stderr.strip()[:200]))
     # graphviz as a second syntax oracle, in chunks; on failure find the culprit
     if HAVE_DOT:
         chunk = 200
